@@ -45,7 +45,7 @@ type histOp struct {
 
 var c12Roots = []string{"/a", "/b", "/a/b", "/", "/c/{v}"}
 var c12Plain = []string{"/static/", "/h"}
-var c12Subs = []string{"/x", "/{id}", "/x/{id}", "/y", "", "/{id}/z", "/w/{rest:*}", "/p/{id}", "/q", "/r/{id}/s", "/t"}
+var c12Subs = []string{"/x", "/{id}", "/x/{id}", "/y", "", "/{id}/z", "/w/{rest:*}", "/p/{id}", "/q", "/r/{id}/s", "/t", "/{id}:go"}
 
 func genC12(x *Ctx) *c12Scen {
 	tp := x.Tape
